@@ -192,7 +192,7 @@ def s_contract(cb, st, for_layer='S_'):
     ens.append(implies('%s->logger != (void*)0' % c, 'g_lt[%d][%s] == __CPROVER_old(g_clock) + 1 && g_lt[%d][%s] < g_t[%d][%s]' % (kid, who, kid, who, kid, who)))
     ens.append(implies('%s->logger == (void*)0' % c, 'g_lt[%d][%s] == __CPROVER_old(g_lt[%d][%s])' % (kid, who, kid, who)))
     if cb in ('entryGuard', 'exitGuard'):
-        ens.append('__CPROVER_return_value == (!__CPROVER_old(control->_cancelled) && control->_cancelled)')     # C03: "newly cancelled"
+        ens.append(('C02,C03', '__CPROVER_return_value == (!__CPROVER_old(control->_cancelled) && control->_cancelled)'))     # C03: "newly cancelled"
     elif flav == 'Full' and cb not in ('planSucceeded', 'planFailed'):
         ens.append('__CPROVER_return_value.result == %s._taskStatus.result' % CTL[flav]['plan'])
     if cb == 'exit':
@@ -279,7 +279,7 @@ def s_unit_inj(cb):
     recs = dict(S_RECS)
     recs['S_'] = r'^ffsm2::detail::S_<2,.*,C>$'
     recs['A_'] = r'^ffsm2::detail::A_<Inj1,Inj2,Inj3>$'
-    return dict(id='structure.S_inj.%s' % fn, witness=W, recs=recs, opaque=OPAQUE, props=['C15', 'C18'],
+    return dict(id='structure.S_inj.%s' % fn, witness=W, recs=recs, opaque=OPAQUE, props=['C15', 'C18'] + (['C02', 'C03'] if 'Guard' in fn else []),
                 target=dict(cls=recs['S_'], name=fn, nparams=2 if ev else 1),
                 consts=S_CONSTS, need_consts=['ArgsT.STATE_COUNT'], ghost=GHOST + ['uint32_t g_ti[16][3]; uint8_t g_sti[16][3];'],
                 calls=S_CALLS, contracts=contracts,
@@ -651,7 +651,7 @@ def r_unit(name, fn, contract, callee_contracts, props, nparams, calls=None, cls
     contracts.update(callee_contracts)
     cl = dict(R_CALLS); cl.update(calls or {})
     u = dict(id='root.%s' % name, witness=W, recs=R_RECS, opaque=R_OPAQUE, opaque_keep=R_KEEP, props=props,
-             target=dict(cls=cls, name=name, nparams=nparams), consts=CONSTS, need_consts=['ArgsT.STATE_COUNT', 'R_.SUBSTITUTION_LIMIT'], ghost=GHOST, calls=cl, contracts=contracts)
+             target=dict(cls=cls, name=name.split('.')[0], nparams=nparams), consts=CONSTS, need_consts=['ArgsT.STATE_COUNT', 'R_.SUBSTITUTION_LIMIT'], ghost=GHOST, calls=cl, contracts=contracts)
     u.update(kw)
     return u
 
@@ -662,6 +662,32 @@ UNITS += [
     r_unit('cancelledByGuards', 'R___cancelledByGuards', R_GUARDS,
            {'C___deepForwardExitGuard': c_guard(11, G_ACT, False), 'C___deepForwardEntryGuard': c_guard(1, G_REQD, False)},
            ['C03', 'C06', 'C07', 'C18'], 2),
+]
+
+# ---- the same step with R_::cancelledByGuards *inlined* (bounded stand-in next to the modular proof above): the target contract is
+# R_PT unchanged, the only callees under contract are the composite's guards and deepChangeToRequested, so the unit does not depend
+# on how processTransitions / cancelledByGuards divide the work between them (signatures, where the GuardControl lives).
+# The history variables the modular proof attaches to cancelledByGuards are attached to the two guard calls instead: the exit guards
+# are consulted exactly once per round, first; the request survives the round iff the entry guards are reached and do not cancel.
+def _inl_exit():
+    c = dict(c_guard(11, G_ACT, False))
+    c['requires'] = c['requires'] + [t_eq('(*control->_pendingTransition)', 'g_lastreq')]
+    c['assigns_callee'] = ['g_rounds', 'g_lasteval']
+    c['ensures_callee'] = ['g_rounds == __CPROVER_old(g_rounds) + 1', t_eq('g_lasteval', '(*control->_pendingTransition)')]
+    return c
+def _inl_entry():
+    c = dict(c_guard(1, G_REQD, False))
+    c['assigns_callee'] = ['g_surv', 'g_has_surv']
+    c['ensures_callee'] = [implies('!__CPROVER_return_value', 'g_has_surv && ' + t_eq('g_surv', '(*control->_pendingTransition)')),
+                           implies('__CPROVER_return_value', 'g_has_surv == __CPROVER_old(g_has_surv) && ' + t_eq('g_surv', '__CPROVER_old(g_surv)'))]
+    return c
+R_PT_BOUNDED = {k: v for k, v in R_PT.items() if k != 'loops'}
+UNITS += [
+    r_unit('processTransitions.inlined', 'R___processTransitions', R_PT_BOUNDED,
+           {'C___deepForwardExitGuard': _inl_exit(), 'C___deepForwardEntryGuard': _inl_entry(), 'C___deepChangeToRequested': C_CHANGE},
+           ['C02', 'C03', 'C04', 'C07', 'C11', 'C01', 'C18'], 1, calls={'re:^R___cancelledBy': 'body'},
+           consts=dict(CONSTS, G__NSubstitutionLimit=('range', 1, 3)), unwind_target_loops={0: 4}, object_bits=12,
+           bounded='substitution limit <= 3 (substitution loop unwound, cancelledByGuards inlined); the unbounded proof is root.processTransitions + root.cancelledByGuards'),
 ]
 
 # ---- logger records for requests / cancellations / task status (C16)
@@ -829,10 +855,26 @@ R_REPLAY = dict(
              ('C11', t_eq(RC + '.request', '__CPROVER_old(%s.request)' % RC))] + INV_POST
             + [('C11', implies('destination != 255', x)) for x in life_effect('__CPROVER_old(%s)' % R_ACT, 'destination')])
 
+def _inl_entry_ie():
+    """activation: one call of the composite's entry guards per round (history variables as in R_EGUARDS)"""
+    c = dict(c_guard(1, G_REQD, True))
+    P = '(*control->_pendingTransition)'
+    c['requires'] = c['requires'] + [implies(P + '._b0.destination != 255', t_eq(P, 'g_lastreq'))]
+    c['assigns_callee'] = ['g_rounds', 'g_surv', 'g_has_surv', 'g_lasteval']
+    c['ensures_callee'] = ['g_rounds == __CPROVER_old(g_rounds) + 1',
+                           implies(P + '._b0.destination != 255', t_eq('g_lasteval', P)),
+                           implies('!__CPROVER_return_value && %s._b0.destination != 255' % P, 'g_has_surv && ' + t_eq('g_surv', P)),
+                           implies('__CPROVER_return_value || %s._b0.destination == 255' % P, 'g_has_surv == __CPROVER_old(g_has_surv) && ' + t_eq('g_surv', '__CPROVER_old(g_surv)'))]
+    return c
 UNITS += [
-    r_unit('cancelledByEntryGuards', 'R___cancelledByEntryGuards', R_EGUARDS, {'C___deepEntryGuard': c_guard(1, G_REQD, True)}, ['C03', 'C04', 'C07', 'C18'], 2),
+    r_unit('cancelledByEntryGuards', 'R___cancelledByEntryGuards', R_EGUARDS, {'C___deepEntryGuard': c_guard(1, G_REQD, True)}, ['C03', 'C04', 'C06', 'C07', 'C18'], 2),
     r_unit('initialEnter', 'R___initialEnter', R_IE, {'R___cancelledByEntryGuards': R_EGUARDS, 'C___deepEnter': C_ENTER},
            ['C01', 'C02', 'C03', 'C04', 'C06', 'C07', 'C11', 'C14', 'C18'], 0, calls={'R___cancelledByEntryGuards': 'contract'}),
+    r_unit('initialEnter.inlined', 'R___initialEnter', {k: v for k, v in R_IE.items() if k != 'loops'},
+           {'C___deepEntryGuard': _inl_entry_ie(), 'C___deepEnter': C_ENTER},
+           ['C01', 'C02', 'C03', 'C04', 'C06', 'C07', 'C11', 'C14', 'C18'], 0, calls={'re:^R___cancelledBy': 'body'},
+           consts=dict(CONSTS, G__NSubstitutionLimit=('range', 1, 3)), unwind_target_loops={0: 4}, object_bits=12,
+           bounded='substitution limit <= 3 (redirect loop unwound, cancelledByEntryGuards inlined); the unbounded proof is root.initialEnter + root.cancelledByEntryGuards'),
     r_unit('finalExit', 'R___finalExit', R_FE, dict({'C___deepExit': C_EXIT}, **PLANDATA_CLEAR), ['C01', 'C09', 'C11', 'C18'], 0, calls={'PlanDataT__clear': 'contract'}),
     r_unit('replayTransition', 'R___replayTransition', R_REPLAY, {'C___deepChangeToRequested': C_CHANGE}, ['C11', 'C01', 'C03', 'C18'], 1),
 ]
